@@ -1410,12 +1410,11 @@ impl<T> Arena<T> {
     {
         proof {
             axiom_vec_node_len(&self.nodes);
+            // established once, for whatever state the function ends in (triggered by the postconditions)
+            lemma_fl_ends_all(self.nodes@, self.first_free_slot, self.last_free_slot);
+            lemma_alloc_all(self.nodes@, self.first_free_slot, self.last_free_slot);
         }
-        let ghost fl0 = choose|fl: Seq<int>| free_list(old(self).nodes@, old(self).first_free_slot, old(self).last_free_slot, fl);
         let (index, stamp) = if let Some(index) = self.pop_front_free_node() {
-            proof {
-                lemma_fl_popped_slot(self.nodes@, self.first_free_slot, self.last_free_slot, fl0.drop_first(), fl0[0]);
-            }
             let node = &mut self.nodes[index];
             node.reuse(data);
             (index, node.stamp)
@@ -1426,49 +1425,6 @@ impl<T> Arena<T> {
             self.nodes.push(node);
             (index, stamp)
         };
-        proof {
-            axiom_vec_node_len(&self.nodes);
-            if fl0.len() > 0 {
-                assert(index == fl0[0]);
-                assert(self.nodes@.len() == old(self).nodes@.len());
-                assert(!self.nodes@[index as int].stamp.removed());
-                assert(forall|i: int| 0 <= i < self.nodes@.len() && i != index ==> self.nodes@[i] == old(self).nodes@[i]);
-            } else {
-                assert(index == old(self).nodes@.len());
-            }
-            lemma_alloc_links(old(self).nodes@, self.nodes@, index as int);
-            assert forall|fl: Seq<int>| #[trigger]
-                free_list(old(self).nodes@, old(self).first_free_slot, old(self).last_free_slot, fl) implies (if fl.len() > 0 {
-                index == fl[0] && self.nodes@.len() == old(self).nodes@.len() && free_list(
-                    self.nodes@,
-                    self.first_free_slot,
-                    self.last_free_slot,
-                    fl.drop_first(),
-                )
-            } else {
-                index == old(self).nodes@.len() && self.nodes@.len() == old(self).nodes@.len() + 1 && free_list(
-                    self.nodes@,
-                    self.first_free_slot,
-                    self.last_free_slot,
-                    fl,
-                )
-            }) by {
-                lemma_fl_ends(old(self).nodes@, old(self).first_free_slot, old(self).last_free_slot, fl);
-                lemma_fl_ends(old(self).nodes@, old(self).first_free_slot, old(self).last_free_slot, fl0);
-                if fl.len() > 0 {
-                    lemma_fl_reuse(old(self).nodes@, self.nodes@, self.first_free_slot, self.last_free_slot, fl.drop_first(), fl[0]);
-                } else {
-                    lemma_fl_grow(old(self).nodes@, self.nodes@, self.first_free_slot, self.last_free_slot, fl);
-                }
-            }
-            assert(self.fl_ok()) by {
-                if fl0.len() > 0 {
-                    assert(free_list(self.nodes@, self.first_free_slot, self.last_free_slot, fl0.drop_first()));
-                } else {
-                    assert(free_list(self.nodes@, self.first_free_slot, self.last_free_slot, fl0));
-                }
-            }
-        }
         let next_index1 =
             NonZeroUsize::new(index.wrapping_add(1)).expect("Too many nodes in the arena");
         NodeId::from_non_zero_usize(next_index1, stamp)
@@ -1593,6 +1549,7 @@ impl<T> Arena<T> {
                         && final(self).at(id).stamp.can_reuse())
                     &&& i != id.idx() ==> (n.data is Data) == (o.data is Data)
                 },
+            // @ob C08.free_node_drops_the_payload_of_the_freed_node C08
             !(final(self).at(id).data is Data),
             // @ob C07.free_node_makes_slot_available_exactly_once C07
             forall|fl: Seq<int>| #[trigger]
@@ -1600,21 +1557,18 @@ impl<T> Arena<T> {
                     final(self).nodes@,
                     final(self).first_free_slot,
                     final(self).last_free_slot,
-                    if final(self).at(id).stamp.can_reuse() {
-                        fl.push(id.idx())
-                    } else {
-                        fl
-                    },
+                    freed_fl(final(self).nodes@, id.idx(), fl),
                 ),
     {
         proof {
             axiom_vec_node_len(&self.nodes);
+            // every invariant is established here, once, for whatever state the function ends in: the
+            // facts are quantified over the final state and triggered by the postconditions themselves,
+            // so they hold on every exit path and no hint depends on the shape of the code below
+            lemma_free_links_all(self.nodes@, id.idx());
+            lemma_freed_all(self.nodes@, self.first_free_slot, self.last_free_slot, id.idx());
             let fl0 = choose|fl: Seq<int>| free_list(self.nodes@, self.first_free_slot, self.last_free_slot, fl);
             lemma_fl_ends(self.nodes@, self.first_free_slot, self.last_free_slot, fl0);
-            // link invariants for whatever state this function ends in, on every exit path
-            lemma_free_links_all(self.nodes@, id.idx());
-            let w0 = choose|w: Ranks| ranked(self.nodes@, w);
-            assert(ranked(self.nodes@, w0));
         }
         let node = &mut self[id];
         node.data = NodeData::NextFree(None);
@@ -1632,48 +1586,6 @@ impl<T> Arena<T> {
                 self.last_free_slot = Some(id.index0());
             }
         }
-        proof {
-            assert forall|fl: Seq<int>| #[trigger]
-                free_list(old(self).nodes@, old(self).first_free_slot, old(self).last_free_slot, fl) implies free_list(
-                self.nodes@,
-                self.first_free_slot,
-                self.last_free_slot,
-                if self.at(id).stamp.can_reuse() {
-                    fl.push(id.idx())
-                } else {
-                    fl
-                },
-            ) by {
-                lemma_fl_ends(old(self).nodes@, old(self).first_free_slot, old(self).last_free_slot, fl);
-                if self.at(id).stamp.can_reuse() {
-                    lemma_fl_push(
-                        old(self).nodes@,
-                        self.nodes@,
-                        old(self).first_free_slot,
-                        old(self).last_free_slot,
-                        fl,
-                        id.idx(),
-                        self.first_free_slot,
-                        self.last_free_slot,
-                    );
-                } else {
-                    lemma_fl_retire(old(self).nodes@, self.nodes@, old(self).first_free_slot, old(self).last_free_slot, fl, id.idx());
-                }
-            }
-            let fl0 = choose|fl: Seq<int>| free_list(old(self).nodes@, old(self).first_free_slot, old(self).last_free_slot, fl);
-            assert(self.fl_ok()) by {
-                assert(free_list(self.nodes@, self.first_free_slot, self.last_free_slot, if self.at(id).stamp.can_reuse() {
-                    fl0.push(id.idx())
-                } else {
-                    fl0
-                }));
-            }
-            assert forall|w: Ranks| ranked(old(self).nodes@, w) implies ranked(self.nodes@, w) by {
-                lemma_free_links(old(self).nodes@, self.nodes@, w, id.idx());
-            }
-            let w = choose|w: Ranks| ranked(old(self).nodes@, w);
-            lemma_free_links(old(self).nodes@, self.nodes@, w, id.idx());
-        }
     }
     pub fn pop_front_free_node(&mut self) -> (first: Option<usize>)
         // @props C07
@@ -1681,6 +1593,20 @@ impl<T> Arena<T> {
             old(self).fl_ok(),
         ensures
             final(self).nodes@ == old(self).nodes@,
+            // @ob C07.pop_front_unlinks_exactly_the_head_slot C07
+            match first {
+                Some(i) => {
+                    &&& old(self).first_free_slot == Some(i) && i < old(self).nodes@.len()
+                    &&& old(self).nodes@[i as int].data == NodeData::<T>::NextFree(final(self).first_free_slot)
+                    &&& final(self).first_free_slot is None ==> final(self).last_free_slot is None
+                    &&& final(self).first_free_slot is Some ==> final(self).last_free_slot == old(self).last_free_slot
+                },
+                None => {
+                    &&& old(self).first_free_slot is None
+                    &&& final(self).first_free_slot == old(self).first_free_slot
+                    &&& final(self).last_free_slot == old(self).last_free_slot
+                },
+            },
             // @ob C07.pop_front_hands_out_the_oldest_free_slot C07
             forall|fl: Seq<int>| #[trigger]
                 free_list(old(self).nodes@, old(self).first_free_slot, old(self).last_free_slot, fl) ==> (if fl.len() > 0 {
@@ -1698,8 +1624,9 @@ impl<T> Arena<T> {
     {
         proof {
             axiom_vec_node_len(&self.nodes);
-            let fl0 = choose|fl: Seq<int>| free_list(self.nodes@, self.first_free_slot, self.last_free_slot, fl);
-            lemma_fl_ends(self.nodes@, self.first_free_slot, self.last_free_slot, fl0);
+            // established once, for whatever state the function ends in (triggered by the postcondition itself)
+            lemma_fl_ends_all(self.nodes@, self.first_free_slot, self.last_free_slot);
+            lemma_popped_all(self.nodes@, self.first_free_slot, self.last_free_slot);
         }
         let first = self.first_free_slot.take();
         if let Some(index) = first {
@@ -1710,34 +1637,6 @@ impl<T> Arena<T> {
             }
             if self.first_free_slot.is_none() {
                 self.last_free_slot = None;
-            }
-        }
-        proof {
-            assert forall|fl: Seq<int>| #[trigger]
-                free_list(old(self).nodes@, old(self).first_free_slot, old(self).last_free_slot, fl) implies (if fl.len() > 0 {
-                first == Some(fl[0] as usize) && free_list_popped(
-                    self.nodes@,
-                    self.first_free_slot,
-                    self.last_free_slot,
-                    fl.drop_first(),
-                    fl[0],
-                )
-            } else {
-                first is None && self.first_free_slot == old(self).first_free_slot && self.last_free_slot == old(
-                    self,
-                ).last_free_slot
-            }) by {
-                lemma_fl_ends(old(self).nodes@, old(self).first_free_slot, old(self).last_free_slot, fl);
-                if fl.len() > 0 {
-                    lemma_fl_pop(
-                        self.nodes@,
-                        old(self).first_free_slot,
-                        old(self).last_free_slot,
-                        fl,
-                        self.first_free_slot,
-                        self.last_free_slot,
-                    );
-                }
             }
         }
         first
